@@ -563,7 +563,7 @@ func ruleLexMode(c *Ctx) {
 		c.check(problem == "", name+"|corpus", c.pos(fn.Pos()), name, fmt.Sprintf("%d texts tokenised by folding ScanFunc over a modelled reader: every token, both modes, comments in every position, white space of every kind - each text gives the token sequence the notation says", n), name+": "+problem)
 		if problem == "" {
 			c.site(n - 1)
-			c.lexModeRest(fn, g, name)
+			c.lexModeRest(fn, g, name, true)
 			return
 		}
 	}
@@ -724,12 +724,12 @@ func ruleLexMode(c *Ctx) {
 		comment = stopsAtNL && rec
 	}
 	c.check(comment, name+"|comment", c.pos(fn.Pos()), name, "`;` discards up to the newline and scans the next token", "the `;` comment case is missing or no longer skips exactly to the end of the line before scanning the next token")
-	c.lexModeRest(fn, g, name)
+	c.lexModeRest(fn, g, name, false)
 }
 
 // lexModeRest: the parts of LEXMODE that are decided on the rune domain (run terminators, exact run classes, no silent
 // end of input, the digit class, where runs start) and the mode setters.
-func (c *Ctx) lexModeRest(fn *ssa.Function, g *yaccGrammar, name string) {
+func (c *Ctx) lexModeRest(fn *ssa.Function, g *yaccGrammar, name string, corpusDecided bool) {
 	// run terminators: a SYMBOL / METADATA run must stop at every rune that starts a token which may follow it
 	// (FOLLOW sets of the grammar) and at the comment introducer; white space is handled by the predicate itself
 	if lt, err := c.lexerTables(); err == nil {
@@ -829,6 +829,11 @@ func (c *Ctx) lexModeRest(fn *ssa.Function, g *yaccGrammar, name string) {
 		sf := c.fn("input/ast", s.fn)
 		if sf == nil {
 			c.missing("input/ast." + s.fn)
+			continue
+		}
+		if corpusDecided {
+			// both modes are switched on and off by the texts of the corpus: how the scanner keeps them is decided with it
+			c.ok(fname(sf), c.pos(sf.Pos()), fname(sf), "decided by ScanFunc|corpus: metadata and symbol mode are entered and left by the folded texts")
 			continue
 		}
 		okSet := false
